@@ -26,6 +26,8 @@ PAIRS = {
     "dense": ([0, F(1, 4), F(1, 2), F(3, 4), 1, 3], [0, F(1, 2), 3]),
     "mixed": ([0, F(1, 2), F(3, 2), F(7, 4), 4], [0, F(7, 4), 4]),
     "sparse": ([0, F(3, 4), F(3, 2), 3], [0, 3]),
+    # two checkpoints closer to each other than eps (1/128), strictly inside a step, and a pair straddling a step end
+    "twins": ([0, 1, F(5, 2), F(5, 2) + F(1, 256), F(767, 256), F(769, 256), 4], [0, 1, F(5, 2) + F(1, 256), F(769, 256), 4]),
 }
 
 
@@ -45,7 +47,7 @@ def run(tier: str, seed: int) -> int:
     )
     solvers = ["solver", "mle", "dynamic"] if tier == "quick" else ["solver", "mle", "mle_nocorr", "dynamic", "dynamic_relin"]
     n = 4 if tier == "quick" else 10
-    pair_names = ["ties", "dense"] if tier == "quick" else list(PAIRS)
+    pair_names = ["ties", "dense", "twins"] if tier == "quick" else list(PAIRS)
     profs = [("flat", "I_1", 1)] if tier == "quick" else [("flat", "I_1", 1), ("valley", "I_7_8", 1), ("tight_then_loose", "PI_7_8", F(1, 4)), ("loose_then_tight", "I_1_2", 4)]
 
     # ---- superset / subset pairs on the tracing SSM
@@ -60,6 +62,8 @@ def run(tier: str, seed: int) -> int:
             for sv in solvers:
                 for strat in ("filter", "fixedpoint"):
                     if tier == "quick" and sv != "mle" and (strat == "filter") != (pname == "ties"):
+                        continue
+                    if tier == "quick" and pname == "twins" and (strat == "filter" or sv == "dynamic"):
                         continue
                     rB = l1.L1Runner(cfgB, sv, strat, False)
                     rA = l1.L1Runner(cfgA, sv, strat, False)
